@@ -890,6 +890,29 @@ func c17Gen(r *Rng, shape string) *C17Input {
 	for i := 0; i < nq; i++ {
 		in.Queries = append(in.Queries, c17GenQuery(r, n, eff, nc))
 	}
+	// sweep: one state clause (the same for the whole case) on every tracked
+	// state, hence on every tracked index - for Inactive this includes states
+	// whose machine index is >= the number of tracked states (2:204)
+	if len(eff) > 0 {
+		k := r.Intn(4)
+		for _, st := range eff {
+			q := C17Query{Start: C17Time{H: C17H{Rec: -1}}, End: C17Time{H: C17H{Rec: -1}}}
+			switch k {
+			case 0:
+				q.Active = []int{st}
+			case 1:
+				q.Activated = []int{st}
+			case 2:
+				q.Inactive = []int{st}
+			default:
+				q.Deactivated = []int{st}
+			}
+			if r.Chance(25) {
+				q.Limit = r.Range(1, 2)
+			}
+			in.Queries = append(in.Queries, q)
+		}
+	}
 	for i := 0; i < 4; i++ {
 		st := r.Intn(n)
 		if len(eff) > 0 && r.Chance(85) {
@@ -900,6 +923,24 @@ func c17Gen(r *Rng, shape string) *C17Input {
 			b.Start, b.End = b.End, b.Start
 		}
 		in.Between = append(in.Between, b)
+	}
+	// windows with a known content: the instant of one stored record (the
+	// state did or did not do the thing in exactly that record), a prefix of
+	// the log, the whole log
+	if len(eff) > 0 {
+		for i := 0; i < 4; i++ {
+			b := C17Between{Kind: r.Intn(4), State: eff[r.Intn(len(eff))]}
+			switch i {
+			case 0, 1:
+				k := r.Intn(12)
+				b.Start, b.End = C17H{Rec: k}, C17H{Rec: k}
+			case 2:
+				b.Start, b.End = C17H{Rec: 0}, C17H{Rec: r.Intn(12)}
+			default:
+				b.Start, b.End = C17H{Rec: -1}, C17H{Rec: -1}
+			}
+			in.Between = append(in.Between, b)
+		}
 	}
 	if r.Chance(35) {
 		in.Perm = r.Perm(n)
@@ -982,8 +1023,73 @@ func runC17(c *Ctx) error {
 				out.Count("query_kind", "scalar only")
 			}
 		}
-		for _, b := range obs.Between {
+		tIdx := func(st int) int { return slices.Index(obs.Tracked, st) }
+		for i, q := range obs.Queries {
+			if q.Res == "err" {
+				continue
+			}
+			iq := in.Queries[i]
+			for ci, l := range [][]int{iq.Active, iq.Activated, iq.Inactive, iq.Deactivated} {
+				cl := []string{"active", "activated", "inactive", "deactivated"}[ci]
+				for _, st := range l {
+					out.Count("state_cond_tracked_index", fmt.Sprintf("%s@%d", cl, tIdx(st)))
+					if ci == 2 {
+						if st >= len(obs.Tracked) {
+							out.Count("inactive_machine_index", ">= tracked states")
+						} else {
+							out.Count("inactive_machine_index", "< tracked states")
+						}
+					}
+				}
+			}
+		}
+		for i, b := range obs.Between {
 			out.Count("between_result", b.Res)
+			bt := in.Between[i]
+			ti := tIdx(bt.State)
+			if ti < 0 {
+				out.Count("between_window", "state not tracked")
+				continue
+			}
+			// what the records inside the window say (previous-record reading)
+			did, didnot := 0, 0
+			for j, rc := range obs.Db {
+				if b.S != 0 && b.E != 0 && (rc.H < b.S || rc.H > b.E) {
+					continue
+				}
+				act := rc.Tracked[ti]%2 == 1
+				prev := !act // no older record: the code takes the flip for granted
+				if j > 0 {
+					prev = obs.Db[j-1].Tracked[ti]%2 == 1
+				}
+				var ok bool
+				switch bt.Kind {
+				case 0:
+					ok = act && !prev
+				case 1:
+					ok = act
+				case 2:
+					ok = !act && prev
+				default:
+					ok = !act
+				}
+				if ok {
+					did++
+				} else {
+					didnot++
+				}
+			}
+			kind := []string{"activated", "active", "deactivated", "inactive"}[bt.Kind%4]
+			switch {
+			case did > 0 && didnot > 0:
+				out.Count("between_window", kind+": records that did and records that did not")
+			case did > 0:
+				out.Count("between_window", kind+": only records that did")
+			case didnot > 0:
+				out.Count("between_window", kind+": only records that did not")
+			default:
+				out.Count("between_window", kind+": no record in the window")
+			}
 		}
 		out.Count("import", obs.ImpRes)
 		trivial := len(obs.Txs) == 0 && !obs.NewErr && !obs.Unknown
@@ -1013,7 +1119,9 @@ func runC17(c *Ctx) error {
 		"(tracked subsets, Called/Changed allow- and block-lists, TrackRejected, StoreTransitions, "+
 		"MaxRecords 1..8/1000/default) x 5..9 FindLatest queries (state conditions, scalar ranges, "+
 		"machine-time vectors, wall-clock ranges relative to stored stamps, limits; positive and "+
-		"negative, tracked and untracked states) x 4 *Between calls x one Export/Import round trip. "+
+		"negative, tracked and untracked states) + one state clause swept over every tracked state "+
+		"x 8 *Between calls (random windows, single-record instants, log prefixes, the whole log) "+
+		"x one Export/Import round trip. "+
 		"distinct = distinct (input, observation); trivial = no transition ran", nil)
 	return nil
 }
